@@ -170,6 +170,16 @@ def check_post_order(idx: Index, rep: Report) -> None:
             r.fail(nxt.fq, Finding("C24.R1d", nxt.fq, "successor-source", f"pushed successors come from `{txt}`, not from block.last_op.successors", nxt.loc))
 
 
+    # successors are followed unless the last op is known not to be a terminator
+    for c in calls_in(nxt.node):
+        if call_attr(c) == "has_trait" and "IsTerminator" in unparse(c):
+            kw = {k.arg: unparse(k.value) for k in c.keywords}
+            if kw.get("value_if_unregistered") == "False":
+                r.fail(nxt.fq + ":unregistered", Finding("C24.R1d", nxt.fq, "unregistered-terminator-ignored", f"`{unparse(c)}`: successors of an unregistered last op are not followed; blocks reachable only through it are not yielded", nxt.loc))
+            else:
+                r.ok(nxt.fq + ":unregistered", f"{nxt.loc} `{unparse(c)}` keeps unregistered ops as possible terminators")
+
+
 def check_dominance(idx: Index, rep: Report) -> None:
     f = idx.func(DOM, "DominanceInfo.__init__")
     cfg = CFG(f.node)
